@@ -190,6 +190,18 @@ func (sc *Scope) eval(e *Expr) (tv, error) {
 		if err != nil {
 			return tv{}, err
 		}
+		// trigger hygiene: array cells are addressed as (+ OFFSET q) where OFFSET is the (symbolic) offset of a slice
+		// header; e-matching cannot match arithmetic, so the bound variable is shifted: q' = OFFSET + q
+		for bi, b := range e.Vars {
+			if v, ok := n.vars[b.Name]; ok {
+				if qs, isS := v.sym.(sv); isS {
+					if nb, shifted := shiftBinder(body, qs.t); shifted {
+						body = nb
+						_ = bi
+					}
+				}
+			}
+		}
 		if len(guards) > 0 {
 			if e.Op == "forall" {
 				body = fmt.Sprintf("(=> %s %s)", and(guards...), body)
@@ -395,6 +407,109 @@ func (sc *Scope) eval(e *Expr) (tv, error) {
 		return sc.methodCall(e)
 	}
 	return errf("unsupported spec operator %s", e.Op)
+}
+
+// shiftBinder rewrites body so that every occurrence (+ T q) (T free of q, the same T everywhere) becomes q, and
+// every other occurrence of q becomes (- q T). The quantified formula keeps its meaning (q ranges over all integers).
+func shiftBinder(body string, q string) (string, bool) {
+	var offTerm string
+	search := 0
+	for {
+		i := strings.Index(body[search:], "(+ ")
+		if i < 0 {
+			break
+		}
+		i += search
+		// parse T starting at i+3
+		j := i + 3
+		depth := 0
+		k := j
+		for k < len(body) {
+			c := body[k]
+			if c == '(' {
+				depth++
+			} else if c == ')' {
+				if depth == 0 {
+					break
+				}
+				depth--
+			} else if c == ' ' && depth == 0 {
+				break
+			}
+			k++
+		}
+		if k < len(body) && body[k] == ' ' && strings.HasPrefix(body[k+1:], q+")") {
+			t := body[j:k]
+			if !containsToken(t, q) && !isAtomNumeral(t) {
+				if offTerm == "" {
+					offTerm = t
+				} else if offTerm != t {
+					return body, false
+				}
+			}
+		}
+		search = i + 3
+	}
+	if offTerm == "" {
+		return body, false
+	}
+	marker := "\x00SHIFTED\x00"
+	nb := strings.ReplaceAll(body, "(+ "+offTerm+" "+q+")", marker)
+	nb = replaceToken(nb, q, "(- "+q+" "+offTerm+")")
+	nb = strings.ReplaceAll(nb, marker, q)
+	return nb, true
+}
+
+func isAtomNumeral(t string) bool {
+	for _, c := range t {
+		if c < '0' || c > '9' {
+			return false
+		}
+	}
+	return t != ""
+}
+
+func isTokChar(c byte) bool {
+	return c == '_' || c == '!' || c == '.' || (c >= 'a' && c <= 'z') || (c >= 'A' && c <= 'Z') || (c >= '0' && c <= '9')
+}
+
+func containsToken(s, tok string) bool {
+	i := 0
+	for {
+		j := strings.Index(s[i:], tok)
+		if j < 0 {
+			return false
+		}
+		j += i
+		before := j == 0 || !isTokChar(s[j-1])
+		after := j+len(tok) >= len(s) || !isTokChar(s[j+len(tok)])
+		if before && after {
+			return true
+		}
+		i = j + len(tok)
+	}
+}
+
+func replaceToken(s, tok, repl string) string {
+	var sb strings.Builder
+	i := 0
+	for {
+		j := strings.Index(s[i:], tok)
+		if j < 0 {
+			sb.WriteString(s[i:])
+			return sb.String()
+		}
+		j += i
+		before := j == 0 || !isTokChar(s[j-1])
+		after := j+len(tok) >= len(s) || !isTokChar(s[j+len(tok)])
+		sb.WriteString(s[i:j])
+		if before && after {
+			sb.WriteString(repl)
+		} else {
+			sb.WriteString(tok)
+		}
+		i = j + len(tok)
+	}
 }
 
 func isUntyped(t types.Type) bool {
